@@ -145,6 +145,18 @@ PROPS["C13"]["extra_phases"] = [_miri([{"package": "primsim", "engine": "intres"
 PROPS["C06"]["extra_phases"] = [_miri([{"package": "primsim", "engine": "cbox", "free": False, "plans": 300, "seeds": 1}])]
 
 
+def _objmiri(focus, plans):
+    # leaks are ignored under Miri for objsim: the known C07 finding leaks context clones, which keep
+    # the run's bookkeeping alive; the engine's own live-set and allocator oracles cover leaks natively
+    return {"package": "objsim", "engine": "obj", "free": False, "plans": plans, "seeds": 1, "flags": "-Zmiri-ignore-leaks", "env": {"SIM_FOCUS": focus}}
+
+
+PROPS["C01"]["extra_phases"] = [_miri([_objmiri("calls", 120)])]
+PROPS["C06"]["extra_phases"] = PROPS["C06"]["extra_phases"] + [_miri([_objmiri("life", 150)])]
+PROPS["C07"]["extra_phases"] = [_miri([_objmiri("ctx", 200)])]
+PROPS["C08"]["extra_phases"] = [_miri([_objmiri("casts", 100)])]
+
+
 def _phase_bindgen(prop, tier, seed, report):
     import gensim
     return gensim.phase_bindgen(prop, tier, seed, report)
